@@ -86,12 +86,12 @@ def outcome_table(desc, inputs, mp, extra_entries=()):
         for t in texts:
             try:
                 parse = getattr(g, inv.get(cls, cls)).parse(*args)
-                o = impl.run(parse, e1.fresh(t), 0, True, spans=True, time_limit=0.5)
+                o = impl.run(parse, e1.fresh(t), 0, True, spans=True, time_limit=0.5, patient=True)
                 out.append(('ENTRY', o['kind'], canon(o.get('value'), mp), o.get('index')))
             except Exception as x:
                 out.append(('ENTRY-EXC', type(x).__name__))
     for t in inputs:
-        o = impl.run(g.parse, e1.fresh(t), 0, True, spans=True, time_limit=0.5, raw=True)
+        o = impl.run(g.parse, e1.fresh(t), 0, True, spans=True, time_limit=0.5, raw=True, patient=True)
         k = o['kind']
         if k in ('RET', 'PARTIAL'):
             v = o['value']
